@@ -1,9 +1,9 @@
 #!/bin/bash
-# tools/seedtest.sh <seeded-dir> [tier] : run the property's check against a scratch copy of /repo's
+# tools/seedtest.sh <seeded-dir> [tier] [check-id] : run the property's check against a scratch copy of /repo's
 # working tree with the seeded change applied (VERIF_REPO; /repo itself is not touched).
 set -u
 D=$1; TIER=${2:-quick}
-PROP=$(basename "$D" | cut -d- -f1)
+PROP=${3:-$(basename "$D" | cut -d- -f1)}
 S=$(mktemp -d /tmp/seedrepo.XXXXXX)
 trap 'rm -rf "$S" /tmp/seedtest.$$.log' EXIT
 rsync -a --exclude .git /repo/ "$S"/
